@@ -22,6 +22,7 @@ pub unsafe fn i_try_send<RW: QueueRW<Pay>>(n: usize, k: usize, mpmc: bool, kind:
     let v: usize = rt::oracle_usize();
     let p = Pay::new(v);
     let pser = p.ser;
+    G_MY_SEND_SER = pser;
     rt::ENV_MODE = ENV_PROTOCOL;
     let r = match kind {
         SendKind::Single => w.q.try_send_single(p),
@@ -87,6 +88,7 @@ pub unsafe fn i_try_recv_en<RW: QueueRW<Pay>>(n: usize, k: usize, mpmc: bool, bu
     };
     env_reset(&w, mpmc, budget, en);
     env_set_me_reader(i, reader);
+    G_MY_SHARED = shared;
     rt::ENV_MODE = ENV_PROTOCOL;
     let r = w.q.try_recv(reader);
     rt::ENV_MODE = ENV_OFF;
